@@ -36,7 +36,9 @@ RULE = (
     'character / double quote or backslash / word-prefix of another message, a '
     'trigger tree of 2-6 atoms (& | parentheses, depth <= 3) whose atoms have '
     'an offset in {0,-1,-2,+1,-4} cycle steps (integer cycling also +10, so '
-    'that points such as 1 and 11 meet), a standard (incl. finish) or '
+    'that points such as 1 and 11 meet) or, for 1 atom in 6, an absolute '
+    'point (initial point + 0..3 steps, written canonically, as [^]/[^+Pn], '
+    'without minutes, in extended format, or as the same instant in UTC), a standard (incl. finish) or '
     'custom output and an independently drawn spelling (implicit / :succeed / '
     ':succeeded ...), the same atom possibly twice; evaluation point = initial '
     'point + 0..3 steps (offsets reaching before the initial point are '
@@ -155,7 +157,14 @@ def cases(draw):
             elif t not in failset and out == 'failed':
                 out = 'succeeded'
         sp = draw(st.integers(0, 2))
-        return {'t': t, 'k': off, 'o': out, 's': sp}
+        a = {'t': t, 'k': off, 'o': out, 's': sp}
+        if draw(st.integers(0, 5)) == 0:
+            # absolute trigger point (initial point + 0..3 steps), written
+            # in a drawn spelling: canonical / initial-point relative /
+            # short / extended / the same instant in another time zone
+            a['abs'] = draw(st.integers(0, 3))
+            a['abs_sp'] = draw(st.integers(0, 4))
+        return a
 
     natoms = draw(st.integers(2, 6))
     atoms = []
@@ -205,6 +214,33 @@ def off_text(case, k):
     return f'[{sign}PT{6 * k}H]'
 
 
+def abs_text(case, a):
+    """Text of an absolute trigger point in the drawn spelling."""
+    n, sp = a['abs'], a['abs_sp']
+    if case['mode'] == 'int':
+        if sp in (1, 2):
+            return '[^]' if n == 0 else f'[^+P{n}]'
+        return f'[{case["icp"] + n}]'
+    if sp == 1:
+        return '[^]' if n == 0 else f'[^+PT{6 * n}H]'
+    if case.get('xy') or sp == 0:
+        return f'[{point_str(case, n)}]'
+    base = datetime.strptime(ICPS[case['icp']], '%Y%m%dT%H%M')
+    t = base + timedelta(hours=6 * n)
+    tz = case['tz']
+    if sp == 2:       # short: no minutes
+        return f'[{t.strftime("%Y%m%dT%H")}{tz}]'
+    if sp == 3:       # extended format
+        z = tz if tz == 'Z' else tz[:3] + ':' + tz[3:]
+        return f'[{t.strftime("%Y-%m-%dT%H:%M")}{z}]'
+    # the same instant written in UTC
+    if tz == 'Z':
+        return f'[{t.strftime("%Y%m%dT%H%M")}Z]'
+    sign = 1 if tz[0] == '+' else -1
+    off = timedelta(hours=int(tz[1:3]), minutes=int(tz[3:5])) * sign
+    return f'[{(t - off).strftime("%Y%m%dT%H%M")}Z]'
+
+
 def qual_text(a):
     o, s = a['o'], a['s']
     if o in SHORT:
@@ -219,7 +255,8 @@ def qual_text(a):
 def atom_text(case, a, mark=True):
     q = qual_text(a)
     opt = '?' if (mark and case['opt'] and a['o'] != 'finished') else ''
-    return f"{a['t']}{off_text(case, a['k'])}{q}{opt}"
+    off = abs_text(case, a) if 'abs' in a else off_text(case, a['k'])
+    return f"{a['t']}{off}{q}{opt}"
 
 
 def render(case, tree, top=True):
@@ -317,14 +354,14 @@ def msg_of(case, a, out=None):
 
 def atom_keys(case, a):
     """The real outputs (point, task, message) an atom stands for."""
-    p = point_str(case, case['k'] + a['k'])
+    p = point_str(case, a['abs'] if 'abs' in a else case['k'] + a['k'])
     if a['o'] == 'finished':
         return [(p, a['t'], 'succeeded'), (p, a['t'], 'failed')]
     return [(p, a['t'], msg_of(case, a))]
 
 
 def pre_initial(case, a):
-    return case['k'] + a['k'] < 0
+    return 'abs' not in a and case['k'] + a['k'] < 0
 
 
 def ev(case, tree, sat):
@@ -482,6 +519,11 @@ def check_case(case, ctx: Ctx) -> CaseResult:
         classes.append('negative-offset')
     if any(pre_initial(case, a) for a in atoms):
         classes.append('pre-initial-atom')
+    if any('abs' in a for a in atoms):
+        classes.append('absolute-point-atom')
+    if any('abs' in a and a['abs_sp'] >= 2 and case['mode'] == 'dt'
+           and not case.get('xy') for a in atoms):
+        classes.append('absolute-point-non-canonical-spelling')
     if case['mode'] == 'int' and any(
             case['icp'] + case['k'] + a['k'] < 0 for a in atoms):
         classes.append('negative-integer-point')
